@@ -12,7 +12,7 @@ use refimpl as r;
 use refimpl::{Mode, MODES};
 use serde_json::json;
 
-const RULE: &str = "for honest keys and signed (M, ctx, mode): (1) every other split i != |ctx|, i <= 255, of the concatenation ctx||M into (ctx', M') must be rejected in the same mode; (1b) every single-byte change of the context (all positions), the context truncated/extended by one byte, message bytes changed/extended/truncated must be rejected; (2) cross-mode mimicry, including every split of ctx||OID||PH(M) under pure verify and pure signatures over splits shifted by up to two bytes under hash_verify: the pure signature of OID||PH(M) (also with domain and length bytes prepended) must be rejected by hash_verify(M, PH), and a pre-hash signature must be rejected by pure verify of OID||PH(M) and of the literal formatted bytes; (4) for messages just past 4 KiB .. 1 MiB: a changed byte at the start, middle, end and on both sides of every power-of-two offset, truncation to every power of two, by one byte, and extensions must be rejected; (5) on 64-bit hosts a pure signature over 0^15 must not verify for 0^(2^32+15) (thorough: and vice versa); (3) every other pre-hash function (incl. SHA-256 vs SHAKE128 which share the digest length) and the other mode must reject; the original must verify. The reference is run on every alternative as well (it must also say false). Non-trivial = distinct alternative interpretations evaluated against a signature that verifies under its own interpretation.";
+const RULE: &str = "for honest keys and signed (M, ctx, mode): (1) every other split i != |ctx|, i <= 255, of the concatenation ctx||M into (ctx', M') must be rejected in the same mode; (1b) every single-byte change of the context (all positions), the context truncated/extended by one byte, message bytes changed/extended/truncated must be rejected; (1c) context and message made of bytes that imitate a length byte at every position (ctx[j] = j, M[i] = |ctx|+1+i): moving the real length byte to any other position of ctx||len||M must be rejected; (2) cross-mode mimicry, including every split of ctx||OID||PH(M) under pure verify and pure signatures over splits shifted by up to two bytes under hash_verify: the pure signature of OID||PH(M) (also with domain and length bytes prepended) must be rejected by hash_verify(M, PH), and a pre-hash signature must be rejected by pure verify of OID||PH(M) and of the literal formatted bytes; (4) for messages just past 4 KiB .. 1 MiB: a changed byte at the start, middle, end and on both sides of every power-of-two offset, truncation to every power of two, by one byte, and extensions must be rejected; (5) on 64-bit hosts a pure signature over 0^15 must not verify for 0^(2^32+15) (thorough: and vice versa); (3) every other pre-hash function (incl. SHA-256 vs SHAKE128 which share the digest length) and the other mode must reject; the original must verify. The reference is run on every alternative as well (it must also say false). Non-trivial = distinct alternative interpretations evaluated against a signature that verifies under its own interpretation.";
 
 pub fn run(ctx: &Ctx) -> StageOut {
     let mut acc = Acc::new();
@@ -132,6 +132,38 @@ fn run_set<S: PS>(ctx: &Ctx) -> Acc {
                 alt::<S>(&mut acc, &pk, &pk_b, "msg-extended", &m2, &cx, mode, &sig, false);
                 if !m.is_empty() {
                     alt::<S>(&mut acc, &pk, &pk_b, "msg-truncated", &m[..m.len() - 1], &cx, mode, &sig, false);
+                }
+            }
+            // ---- (1c) content that imitates a length byte at EVERY position: ctx[j] = j and M[i] = |ctx| + 1 + i.
+            // If the length byte were absorbed after the context (or the boundary were found by scanning for
+            // it), (ctx || [|ctx|] || M[..i], M[i+1..]) and (ctx[..j], ctx[j+1..] || [|ctx|] || M) would be the
+            // same message as (ctx, M): all of them must be rejected.
+            {
+                let clr = *g.pick(&[1usize, 16, 100]);
+                let cxr: Vec<u8> = (0..clr).map(|j| j as u8).collect();
+                let mr: Vec<u8> = (0..40usize).map(|i| (clr + 1 + i) as u8).collect();
+                let rnd = g.arr32();
+                if let Ok((Ok(sigr), _)) = sign_replay::<S>(&sk, &mr, &cxr, mode, &rnd) {
+                    if matches!(guarded(|| S::verify(&pk, &mr, &sigr, &cxr, mode)), Ok(true)) {
+                        for i in 0..mr.len() {
+                            let mut c2 = cxr.clone();
+                            c2.push(clr as u8);
+                            c2.extend_from_slice(&mr[..i]);
+                            if c2.len() <= 255 {
+                                alt::<S>(&mut acc, &pk, &pk_b, "length-byte-moved-into-ctx", &mr[i + 1..], &c2, mode, &sigr, i % 8 == 0);
+                            }
+                        }
+                        for j in 0..cxr.len() {
+                            let mut m2 = cxr[j + 1..].to_vec();
+                            m2.push(clr as u8);
+                            m2.extend_from_slice(&mr);
+                            alt::<S>(&mut acc, &pk, &pk_b, "length-byte-moved-into-msg", &m2, &cxr[..j], mode, &sigr, j % 8 == 0);
+                        }
+                        // the length byte dropped / doubled
+                        let mut m2 = vec![clr as u8];
+                        m2.extend_from_slice(&mr);
+                        alt::<S>(&mut acc, &pk, &pk_b, "length-byte-repeated-in-msg", &m2, &cxr, mode, &sigr, true);
+                    }
                 }
             }
             // ---- (3) other PH / other mode -----------------------------------------------
